@@ -166,6 +166,8 @@ class SCtx(Ctx):
 
 
 class Sd(Full):
+    ERR_ENUM = "Error"    # the Rust enum of the errors the monad can fail with
+
     def __init__(self, items):
         super().__init__(items)
         self.sdone = {}
@@ -389,7 +391,7 @@ class Sd(Full):
                 return V(f"(SRes.ok {self.arg(v, ctx)})", ("sres", v.ty), v.ok)
             if tyname is None and name == "Err" and len(args) == 1:
                 v = self.tr(args[0], env, ctx)
-                self.unify(v.ty, ("xenum", "Error"), ctx.what)
+                self.unify(v.ty, ("xenum", self.ERR_ENUM), ctx.what)
                 return V(f"(SRes.err {self.arg(v, ctx)})", ("sres", self.fresh_any()), v.ok)
         return super().tr_call(e, env, ctx)
 
@@ -527,7 +529,7 @@ class Sd(Full):
                 elif segs == ["Ok"] and ty[0] == "sres":
                     ctor, inner = "SRes.ok", ty[1]
                 elif segs == ["Err"] and ty[0] == "sres":
-                    ctor, inner = "SRes.err", ("xenum", "Error")
+                    ctor, inner = "SRes.err", ("xenum", self.ERR_ENUM)
                 else:
                     raise ShapeError(f"{ctx.what}: pattern {segs[0]}(..) against {self.show(ty)}")
                 return [(f"{ctor} {par(lp)}" if not simple(lp) else f"{ctor} {lp}", env2)
@@ -603,6 +605,15 @@ class MC:
 
 
 class SdStmts:
+    # the monad the definitions live in (overridden by translators built on this one)
+    NS = "S"                              # namespace of fail / panic / attempt / lift / get / ofOption
+    FIXED_ARGS = ["B"]                    # what every monadic definition takes first
+    SIG = " {σ : Type} (B : BusOps σ)"    # .. and its binders
+    MON = "S σ"                           # the type constructor
+
+    def fx(self):
+        return "".join(" " + a for a in self.FIXED_ARGS)
+
     # ================================================================== classification
     def is_monadic(self, key):
         if key not in self.items.fns:
@@ -645,14 +656,14 @@ class SdStmts:
         k = e[0]
         if k == "path" and len(e[1]) == 1 and e[1][0] in env and env[e[1][0]][0] == "res":
             b = env[e[1][0]]
-            return MC(f"(S.lift {b[1]})", b[2])
+            return MC(f"({self.NS}.lift {b[1]})", b[2])
         if k == "call" and e[1][0] == "path" and len(e[1][1]) == 1 and e[1][1][0] in env \
                 and env[e[1][1][0]][0] == "closure":
             b = env[e[1][1][0]]
             if len(e[2]) != 1 or not self.is_self(e[2][0], ctx) or len(b[1]) != 1:
                 raise ShapeError(f"{ctx.what}: the closure `{e[1][1][0]}` must be called as `{e[1][1][0]}(self)`")
             info = self.mclosure(e[1][1][0], b[1][0], b[2], ctx)
-            return MC(f"({info.name} B)", info.okty)
+            return MC(f"({info.name}{self.fx()})" if self.FIXED_ARGS else info.name, info.okty)
         if k != "mcall":
             return None
         _, recv, name, args = e
@@ -701,8 +712,8 @@ class SdStmts:
                 ev, wrap = self.pv(c[2], env2, ctx)
                 if c[1][0] in self.names_in(c[2]):
                     raise ShapeError(f"{ctx.what}: the SPI error value is opaque; the map_err closure must ignore it")
-                self.unify(ev.ty, ("xenum", "Error"), ctx.what)
-                return MC(f"({inner.text} >>= S.ofOption {self.arg(ev, ctx)})", inner.okty, inner.outs)
+                self.unify(ev.ty, ("xenum", self.ERR_ENUM), ctx.what)
+                return MC(f"({inner.text} >>= {self.NS}.ofOption {self.arg(ev, ctx)})", inner.okty, inner.outs)
         if name in ("and_then", "map") and len(args) == 1 and args[0][0] == "closure":
             inner = self.call_kind(recv, env, ctx)
             if inner is not None:
@@ -763,7 +774,9 @@ class SdStmts:
             actual.append(self.arg(v, ctx))
             if kind == "out":
                 outs.append((place, v.ty))
-        text = f"({info.name} B" + "".join(" " + a for a in actual) + ")"
+        text = f"({info.name}{self.fx()}" + "".join(" " + a for a in actual) + ")"
+        if not self.FIXED_ARGS and not actual:
+            text = info.name
         for w in reversed(wraps):
             text = w(text)
         return MC(text, info.okty, outs, selfouts, info.fallible)
@@ -846,11 +859,59 @@ class SdStmts:
                 for x in n:
                     walk(x)
         walk(node)
+        self.self_mutated(node, ctx, out)
+        self.extra_mutated(node, env, ctx, out)
         # aliases of list elements change the list
         for n in list(out):
             if n in env and env[n][0] == "elem":
                 out.discard(n)
                 out.add(env[n][4])
+        return out
+
+    def self_field_of(self, e, ctx):
+        """`self.f...` (through indexing / further fields) of a value-struct `self` -> the key of its field variable"""
+        while e[0] in ("index", "ref", "deref") or (e[0] == "field" and e[1] != ("path", ["self"])):
+            e = e[1]
+        if e[0] == "field" and e[1] == ("path", ["self"]) and getattr(ctx, "selfvals", None) is not None \
+                and e[2] in ctx.selfvals:
+            return "self_" + e[2]
+        return None
+
+    def self_mutated(self, node, ctx, out):
+        """fields of a value-struct `self` that are assigned"""
+        if getattr(ctx, "selfvals", None) is None:
+            return
+
+        def walk(n):
+            if isinstance(n, tuple):
+                if n and n[0] == "assign":
+                    k = self.self_field_of(n[2], ctx)
+                    if k:
+                        out.add(k)
+                for x in n:
+                    walk(x)
+            elif isinstance(n, list):
+                for x in n:
+                    walk(x)
+        walk(node)
+
+    def extra_mutated(self, node, env, ctx, out):
+        """hook: further things that change variables (for translators built on this one)"""
+
+    def used_names(self, node, ctx):
+        """names read in the node; a field of a value-struct `self` counts as its variable"""
+        out = self.names_in(node)
+        if getattr(ctx, "selfvals", None) is not None:
+            def walk(n):
+                if isinstance(n, tuple):
+                    if n and n[0] == "field" and n[1] == ("path", ["self"]) and n[2] in ctx.selfvals:
+                        out.add("self_" + n[2])
+                    for x in n:
+                        walk(x)
+                elif isinstance(n, list):
+                    for x in n:
+                        walk(x)
+            walk(node)
         return out
 
     # ================================================================== pure values inside the monad
@@ -876,9 +937,9 @@ class SdStmts:
 
         def wrap(text):
             if ok is not None:
-                text = f"(if {ok} then\n{text}\nelse S.panic \"{self.panic_msg(ok)}\")"
+                text = f"(if {ok} then\n{text}\nelse {self.NS}.panic \"{self.panic_msg(ok)}\")"
             if used:
-                text = bind("S.get", "st", text)
+                text = bind(f"{self.NS}.get", "st", text)
             return text
         return V(v.lean, v.ty, None, v.const, v.prop), wrap
 
@@ -916,7 +977,7 @@ class SdStmts:
         # the outcome as a value
         rn = self.tmp()
         if not mc.outs and not mc.selfouts:
-            return bind(f"(S.attempt {mc.text})", rn, k(env2, V(rn, ("sres", mc.okty))))
+            return bind(f"({self.NS}.attempt {mc.text})", rn, k(env2, V(rn, ("sres", mc.okty))))
         if has_ret or mc.selfouts or len(mc.outs) != 1:
             raise ShapeError(f"{ctx.what}: an outcome kept in a variable of a call with this combination of `&mut` "
                              f"arguments is outside the subset")
@@ -924,7 +985,7 @@ class SdStmts:
         old, wrap = self.pv(place, env2, ctx)
         body = self.set_place(place, f"(SRes.outOr {self.arg(old, ctx)} {rn})", env2, ctx,
                               lambda e3: k(e3, V(f"(SRes.void {rn})", ("sres", ("unit",)))))
-        return bind(f"(S.attempt {mc.text})", rn, wrap(body))
+        return bind(f"({self.NS}.attempt {mc.text})", rn, wrap(body))
 
     def mexpr(self, e, env, ctx, k):
         """evaluate `e` (effects in source order), then k(env, V) -> text"""
@@ -1009,8 +1070,8 @@ class SdStmts:
         if kind == "return":
             if e[1] is not None and is_err_ctor(e[1]):
                 ev, wrap = self.pv(e[1][2][0], env, ctx)
-                self.unify(ev.ty, ("xenum", "Error"), ctx.what)
-                return wrap(f"(S.fail {self.arg(ev, ctx)})"), self.fresh_any()
+                self.unify(ev.ty, ("xenum", self.ERR_ENUM), ctx.what)
+                return wrap(f"({self.NS}.fail {self.arg(ev, ctx)})"), self.fresh_any()
             raise ShapeError(f"{ctx.what}: `return` of a value inside an expression is outside the subset")
         if kind == "block":
             names = set()
@@ -1079,8 +1140,10 @@ class SdStmts:
         def arms_for(sv, env2):
             pieces = []
             t = self.res(sv.ty)
+            if self.is_int(t) and t[0] != "var":
+                return self.int_arms(sv, arms, env2, ctx, arm_text)
             if t[0] == "sres":
-                pieces.append("| SRes.panic _p => S.panic _p")
+                pieces.append(f"| SRes.panic _p => {self.NS}.panic _p")
             for pat, guard, body in arms:
                 if guard is not None:
                     raise ShapeError(f"{ctx.what}: match guards are outside the subset")
@@ -1095,6 +1158,41 @@ class SdStmts:
             return self.mexpr(scrut, env, ctx, lambda e2, v: arms_for(v, e2))
         sv, wrap = self.pv(scrut, env, ctx)
         return wrap(arms_for(sv, env))
+
+    def int_arms(self, sv, arms, env, ctx, arm_text):
+        """`match` on an integer (or a char): an if-chain, the arms in their order"""
+        pre, orig = "", sv.lean
+        if not simple(sv.lean):
+            tn = self.tmp()
+            pre, sv = tn, V(tn, sv.ty)
+        out, closed = [], False
+        for idx, (pat, guard, body) in enumerate(arms):
+            cond, binds = self.pat_cond(pat, V(sv.lean, sv.ty), ctx)
+            env2 = dict(env)
+            for n, bv in binds:
+                self.check_local(n, ctx)
+                env2[n] = ("val", bv.lean, bv.ty)
+            wrapg = None
+            if guard is not None:
+                g, wrapg = self.pv(guard, env2, ctx)
+                if wrapg("") != "":
+                    raise ShapeError(f"{ctx.what}: a match guard with a side condition is outside the subset")
+                gp = self.as_prop(g, ctx)
+                cond = gp if cond is None else f"({cond} ∧ {gp})"
+            text = arm_text(body, env2)
+            if cond is None:
+                out.append(text)
+                closed = True
+                if idx != len(arms) - 1:
+                    raise ShapeError(f"{ctx.what}: unreachable match arms after an irrefutable pattern")
+                break
+            out.append(f"if {cond} then\n{text}\nelse")
+        if not closed:
+            raise ShapeError(f"{ctx.what}: a `match` on an integer needs a final catch-all arm")
+        body = "\n".join(out)
+        if pre:
+            return f"(let {pre} := {orig};\n{body})"
+        return f"({body})"
 
     # ================================================================== places
     def set_place(self, place, val, env, ctx, cont, vty=None):
@@ -1147,7 +1245,11 @@ class SdStmts:
             if t == ("blocks",):
                 return self.set_place(base, f"(List.set {self.arg(bv, ctx)} {self.arg(iv, ctx)} {val})", env, ctx, cont)
             if t[0] == "bytes":
-                return self.set_place(base, f"(List.set {self.arg(bv, ctx)} {self.arg(iv, ctx)} (UInt8.ofNat {val}))", env, ctx, cont)
+                text = self.set_place(base, f"(List.set {self.arg(bv, ctx)} {self.arg(iv, ctx)} (UInt8.ofNat {val}))", env, ctx, cont)
+                if not (t[1] is not None and iv.const is not None and iv.const < t[1]):
+                    bound = str(t[1]) if t[1] is not None else f"{self.arg(bv, ctx)}.length"
+                    text = f"(if {self.arg(iv, ctx)} < {bound} then\n{text}\nelse {self.NS}.panic \"index out of bounds\")"
+                return text
         raise ShapeError(f"{ctx.what}: this assignment target is outside the subset")
 
     # ================================================================== statements
@@ -1210,7 +1312,10 @@ class SdStmts:
         if kind == "if":
             return self.s_if(e, env, ctx, cont)
         if kind == "iflet":
-            raise ShapeError(f"{ctx.what}: `if let` statements are outside the subset")
+            # `if let P = e { A } else { B }`: the two-armed match
+            _, pat, scrut, blk, els = e
+            arms = [(pat, None, blk), (("pwild",), None, els if els is not None else ("block", [], None))]
+            return self.s_match(("match", scrut, arms), env, ctx, cont)
         if kind == "match":
             return self.s_match(e, env, ctx, cont)
         if kind == "block":
@@ -1235,8 +1340,8 @@ class SdStmts:
             return ctx.retk(None, env)
         if is_err_ctor(r):
             ev, wrap = self.pv(r[2][0], env, ctx)
-            self.unify(ev.ty, ("xenum", "Error"), ctx.what)
-            return wrap(f"(S.fail {self.arg(ev, ctx)})")
+            self.unify(ev.ty, ("xenum", self.ERR_ENUM), ctx.what)
+            return wrap(f"({self.NS}.fail {self.arg(ev, ctx)})")
         if ctx.loop is not None and not ctx.loop.get("retok"):
             raise ShapeError(f"{ctx.what}: `return` of a value inside a loop that also has `break` is outside the subset")
         return self.tail(r, env, ctx)
@@ -1402,11 +1507,11 @@ class SdStmts:
         """is the variable read after this statement (before it is declared anew)?"""
         for st in rest:
             if st[0] == "let" and st[1][0] == "pbind" and st[1][1] == name:
-                return st[3] is not None and name in self.names_in(strip_logs(st[3]))
-            if name in self.names_in(strip_logs(st)):
+                return st[3] is not None and name in self.used_names(strip_logs(st[3]), ctx)
+            if name in self.used_names(strip_logs(st), ctx):
                 return True
         if top:
-            return name in [n for n, _t in ctx.info.outs]
+            return name in [n for n, _t in ctx.info.outs] or name in ["self_" + f for f, _t in ctx.info.selfout]
         return True
 
     def s_loop(self, s, env, ctx, k):
@@ -1415,6 +1520,7 @@ class SdStmts:
         kind = s[0]
         index = None          # (rust name or None, lean name, first value text) of a counting variable
         count = None          # Lean text of the number of iterations of a counted loop
+        listrec = None        # (loop variable or None, Lean text of the list, element type, Lean type of the list)
         elem = None           # (loop variable, base list variable) of an element loop
         if kind == "loop":
             body = s[1]
@@ -1423,7 +1529,7 @@ class SdStmts:
             body = ("block", [brk] + list(s[2][1]) + ([("expr", s[2][2])] if s[2][2] is not None else []), None)
         else:
             _, pat, it, body = s
-            if pat[0] not in ("pbind", "pwild"):
+            if pat[0] not in ("pbind", "pwild") and it[0] == "range":
                 raise ShapeError(f"{ctx.what}: `for` pattern outside the subset")
             var = pat[1] if pat[0] == "pbind" else None
             used = var is not None and var in self.names_in(strip_logs(body))
@@ -1448,12 +1554,18 @@ class SdStmts:
                 index = (None, "_i", "0", ("usize",))
                 elem = (var, base)
             else:
-                raise ShapeError(f"{ctx.what}: this `for` iterator is outside the subset")
+                listrec = self.list_iter(pat, it, env, ctx)
+                if listrec is None:
+                    raise ShapeError(f"{ctx.what}: this `for` iterator is outside the subset")
+                count = "list"
+                if len(listrec) > 5 and listrec[5] is not None:
+                    # `.enumerate()`: the position counts from 0
+                    index = (listrec[5], lname(listrec[5]), "0", ("usize",))
         clean = strip_logs(body)
         retok = has_return_ok(clean)
         breaks = has_jump(clean, ("break",))
-        if retok and (breaks or count is not None):
-            raise ShapeError(f"{ctx.what}: a loop with both `break` / an end and `return Ok(..)` is outside the subset")
+        # a loop that can end (`break`, its last element) AND return from the function: its result is an `Except`
+        both = retok and (breaks or count is not None)
         # what the loop changes
         envl = dict(env)
         if elem is not None:
@@ -1472,7 +1584,10 @@ class SdStmts:
                 raise ShapeError(f"{ctx.what}: an open-ended loop needs exactly one retry budget (`Delay`) that it "
                                  f"spends; found {cands}")
             fuel = f"({env[cands[0]][1]} + 1)"
-        used_names = self.names_in(clean)
+        used_names = self.used_names(clean, ctx)
+        if retok:
+            # a `return` hands back the `&mut` parameters and the fields of a value-struct `self`
+            used_names |= {n for n, _t in ctx.info.outs} | {"self_" + f for f, _t in ctx.info.selfout}
         captured = sorted(n for n in used_names if n in env and env[n][0] in ("val", "res")
                           and n not in carried and n not in outs and not (elem and n == elem[1] and n in carried))
         if elem is not None and elem[1] not in carried and elem[1] not in captured:
@@ -1493,6 +1608,10 @@ class SdStmts:
         if index is not None and index[0] is not None:
             envl[index[0]] = ("val", index[1], index[3])
         rec_first = "fuel" if fuel is not None else "todo"
+        if listrec is not None:
+            rec_first = "_rest"
+            if listrec[0] is not None:
+                envl[listrec[0]] = ("val", listrec[4] if len(listrec) > 4 else lname(listrec[0]), listrec[2])
 
         def state_args(envb):
             return [envb[n][1] for n in carried]
@@ -1502,7 +1621,7 @@ class SdStmts:
             if index is not None:
                 args.append(f"({index[1]} + 1)")
             args += state_args(envb)
-            return "(" + " ".join([lname_, "B"] + ["\x03CAP\x03"] + args) + ")"
+            return "(" + " ".join([lname_] + self.FIXED_ARGS + ["\x03CAP\x03"] + args) + ")"
         result_box = {"bty": None}
 
         def exit_text(envb, bv):
@@ -1516,12 +1635,22 @@ class SdStmts:
                 if envb[n][0] == "uninit":
                     raise ShapeError(f"{ctx.what}: `{n}` is not assigned on every path that leaves the loop")
                 parts.append(envb[n][1])
+            if both:
+                return f"(pure (Except.ok {tup(parts)}))"
             return f"(pure {tup(parts)})"
         saved_loop, saved_retk = ctx.loop, ctx.retk
         ctx.loop = dict(brk=lambda envb, bv: exit_text(envb, bv), cont=lambda envb: rec_call(envb), retok=retok)
+        if both:
+            def retk_in_loop(v, envb):
+                t = saved_retk(v, envb)
+                if not (t.startswith("(pure ") and t.endswith(")")):
+                    raise ShapeError(f"{ctx.what}: internal: unexpected shape of the function's end")
+                return f"(pure (Except.error {t[6:-1]}))"
+            ctx.retk = retk_in_loop
         ctx.used_opts_before = ctx.used_opts
         body_text = self.scoped(body, envl, ctx, lambda envb: rec_call(envb))
         ctx.loop = saved_loop
+        ctx.retk = saved_retk
         need_st0 = "st0." in body_text
         # the definition
         caps = [(env[n][1], lty(n)) for n in captured]
@@ -1530,8 +1659,9 @@ class SdStmts:
         cap_params = "".join(f" ({n} : {t})" for n, t in caps)
         cap_args = " ".join(n for n, t in caps)
         body_text = body_text.replace("\x03CAP\x03", cap_args).replace("  ", " ")
-        rec_types = ["Nat"] + ([self.lean_type(index[3], ctx.what)] if index is not None else []) + [lty(n) for n in carried]
-        if retok:
+        rec_types = ["Nat" if listrec is None else listrec[3]] + \
+            ([self.lean_type(index[3], ctx.what)] if index is not None else []) + [lty(n) for n in carried]
+        if retok and not both:
             rty = ctx.info.rty_text()
         else:
             comp = []
@@ -1541,26 +1671,31 @@ class SdStmts:
             for n in outs:
                 comp.append(self.lean_type(env[n][1], ctx.what))
             rty = "Unit" if not comp else (comp[0] if len(comp) == 1 else "(" + " × ".join(comp) + ")")
+            if both:
+                rty = f"Except {par(ctx.info.rty_text())} {par(rty)}"
         pats_rest = ([index[1]] if index is not None else []) + [lname(n) for n in carried]
         if fuel is not None:
-            zero = f'S.panic "{PANIC_FUEL}"'
+            zero = f'{self.NS}.panic "{PANIC_FUEL}"'
         else:
             env0 = dict(envl)
             if breaks and result_box["bty"] is not None:
                 raise ShapeError(f"{ctx.what}: a counted loop that can `break` with a value is outside the subset")
             zero = exit_text(env0, None)
-        sig = f"def {lname_} {{σ : Type}} (B : BusOps σ){cap_params} : " + " → ".join(rec_types) + f" → S σ {par(rty)}"
+        sig = f"def {lname_}{self.SIG}{cap_params} : " + " → ".join(rec_types) + f" → {self.MON} {par(rty)}"
         d = (f"/-- loop {my_n} of {ctx.info.doc_name}"
              + (" (fuel: one more than the retry budget it spends)" if fuel is not None else " (one step per element)") + ". -/\n"
              + sig + "\n"
-             + "  | " + ", ".join(["0"] + ["_" if zero.startswith("S.panic") else x for x in pats_rest]) + " => " + zero + "\n"
-             + "  | " + ", ".join([rec_first + " + 1"] + pats_rest) + " =>\n" + body_text + "\n")
+             + "  | " + ", ".join(["0" if listrec is None else "[]"]
+                             + ["_" if zero.startswith(self.NS + ".panic") else x for x in pats_rest]) + " => " + zero + "\n"
+             + "  | " + ", ".join([rec_first + " + 1" if listrec is None else
+                                   (lname(listrec[0]) if listrec[0] is not None else "_") + " :: _rest"] + pats_rest)
+             + " =>\n" + body_text + "\n")
         ctx.info.aux.append(d)
         # the call
-        first = fuel if fuel is not None else count
+        first = fuel if fuel is not None else (count if listrec is None else listrec[1])
         call_args = [first] + ([index[2]] if index is not None else []) + [env[n][1] for n in carried]
-        call = "(" + " ".join([lname_, "B"] + ([cap_args] if cap_args else []) + call_args) + ")"
-        if retok:
+        call = "(" + " ".join([lname_] + self.FIXED_ARGS + ([cap_args] if cap_args else []) + call_args) + ")"
+        if retok and not both:
             return call
         env2 = dict(env)
         names_out = []
@@ -1578,7 +1713,17 @@ class SdStmts:
         for n in outs:
             names_out.append(lname(n))
             env2[n] = ("val", lname(n), env[n][1])
+        if both:
+            rn = self.tmp()
+            vn = self.tmp()
+            pat = tup(names_out) if names_out else "_"
+            return bind(call, rn, f"(match {rn} with\n| Except.error {vn} => (pure {vn})\n| Except.ok {pat} =>\n{k(env2, bv)})")
         return bind(call, tup(names_out) if names_out else "_", k(env2, bv))
+
+    def list_iter(self, pat, it, env, ctx):
+        """hook: `for pat in it` over a list, by structural recursion on it -> (variable or None, Lean text of the
+        list, element type, Lean type of the list), or None"""
+        return None
 
     def has_delay_call(self, node, var):
         if isinstance(node, tuple):
@@ -1709,7 +1854,7 @@ class SdStmts:
         ctx.retk = retk
         text = self.tail(body, env, ctx)
         if ctx.used_opts or "st0." in text:
-            text = bind("S.get", "st0", text)
+            text = bind(f"{self.NS}.get", "st0", text)
         info.body = self.resolve_placeholders(text, what)
         info.aux = [self.resolve_placeholders(a, what) for a in info.aux]
         info.rty = rty_text()
@@ -1947,7 +2092,7 @@ def render_sd(T):
             hdr = [ln for ln in parts[:4]]
             lines.append("\n".join(hdr) + "\n" + indent_text("\n".join(parts[4:]), 4) + "\n")
         ps = "".join(f" ({n} : {t})" for n, t in info.params)
-        lines.append(f"/-- {info.doc}. -/\ndef {info.name} {{σ : Type}} (B : BusOps σ){ps} : S σ {par(info.rty)} :=\n"
+        lines.append(f"/-- {info.doc}. -/\ndef {info.name}{T.SIG}{ps} : {T.MON} {par(info.rty)} :=\n"
                      + indent_text(info.body, 2) + "\n")
     lines.append("end Sdmmc.Gen.FunsSd\n")
     return "\n".join(lines)
